@@ -21,6 +21,13 @@ event = ['call', arg, key|None]            one caller task (caller id = running 
       | ['adv', dt]                        advance virtual time by dt ticks (1 tick = 2**-10 s)
       | ['yield', bid, key, 'v'|'e', x]    the batch function of batch bid yields (str(key), x) / (str(key), HExc(x))
       | ['raise', bid, e]                  the batch function raises HExc(e) (for odd e an HExc that is also a KeyError)
+      | ['raise', bid, e, 'sync']          the same event (model: BRaise bid e), and IF it directly follows the event
+                                           whose step started batch bid, and it is safe to do so (one slot, the
+                                           starting event is a call / chain / burst or an advance that ends at the
+                                           start instant with no other timer due), the batch function raises
+                                           SYNCHRONOUSLY WHEN CALLED (a plain callable that validates its input)
+                                           instead of from inside the async generator; what the batch's end causes
+                                           in that loop run is then reported under the raise's own step
       | ['fin', bid]                       the batch function returns
       | ['cancel', cid]                    caller task cid is cancelled
       | ['setmax', n]                      batcher.max_batch_size = n
@@ -169,11 +176,38 @@ class _Run:
         self.inflight = {}     # cid -> task currently awaiting that call
         self.first_cids = {}   # index of a 'burstc' event -> caller id of its first task
         self.issued = []       # every exception instance the batch function raised / yielded (kept alive)
+        self.sync_split = {}   # step -> index into sim.log from which the records belong to the next step
+        self.cur_kind = None   # kind of the last non-advance event handed to the handler
         self.batcher = None
         self.call = None
 
     # -- harness-owned batch function ------------------------------------
-    async def func(self, args):
+    def make_exc(self, n, bid):
+        exc = (HArgExc('r', n, bid) if n % 4 == 2 else HKeyExc('r', n) if n % 2 else HExc('r', n))
+        self.issued.append(exc)
+        return exc
+
+    def sync_raise_now(self, bid):
+        """The id to raise at call time, or None: the next scripted event is ['raise', bid, e, 'sync'] and
+        everything that happens from now on in this loop run is a consequence of this batch's end."""
+        sim = self.sim
+        nxt = sim.events[0] if sim.events else None
+        if not (isinstance(nxt, list) and len(nxt) == 4 and nxt[0] == 'raise' and nxt[1] == bid and nxt[3] == 'sync'):
+            return None
+        if self.cfg['conc'] != 1 or sim.step in self.sync_split:
+            return None
+        tgt = sim._adv_target
+        if tgt is not None:                      # inside an Advance: only at its very end, nothing else due
+            if sim.loop._vt < tgt - 1e-12:
+                return None
+            if any((not h._cancelled) and h._when <= tgt + 1e-12 for h in sim.loop._scheduled):
+                return None
+        elif self.cur_kind not in ('call', 'chain', 'burst'):
+            return None
+        return nxt[2]
+
+    def func(self, args):
+        """A plain callable: reports the start, then raises at once (scripted) or returns the async generator."""
         sim = self.sim
         bid = self.nbid
         self.nbid += 1
@@ -184,6 +218,14 @@ class _Run:
             except Exception:
                 items.append([4999, 4999])
         sim.obs('start', bid, items, sim.ticks())
+        n = self.sync_raise_now(bid)
+        if n is not None:
+            self.sync_split[sim.step] = len(sim.log)      # later records of this loop run belong to the raise's step
+            raise self.make_exc(n, bid)
+        return self.gen(bid)
+
+    async def gen(self, bid):
+        sim = self.sim
         while True:
             fut = sim.loop.create_future()
             self.parked[bid] = fut
@@ -195,10 +237,7 @@ class _Run:
                     self.issued.append(x)
                 yield (key_str(cmd[1]), x)
             elif cmd[0] == 'raise':
-                n = cmd[1]
-                exc = (HArgExc('r', n, bid) if n % 4 == 2 else HKeyExc('r', n) if n % 2 else HExc('r', n))
-                self.issued.append(exc)
-                raise exc
+                raise self.make_exc(cmd[1], bid)
             else:
                 return
 
@@ -255,6 +294,7 @@ class _Run:
     def handler(self, ev):
         loop = self.sim.loop
         kind = ev[0]
+        self.cur_kind = kind
         if self.call is None:
             self.setup()
         if kind == 'burstc':
@@ -297,8 +337,10 @@ class _Run:
             sim.run(evs, self.handler)
             nsteps = len(evs)
             steps = [[] for _ in range(nsteps)]
-            for rec in sim.log:
+            for idx, rec in enumerate(sim.log):
                 st = rec[0]
+                if st in self.sync_split and idx >= self.sync_split[st]:
+                    st += 1                        # caused by the synchronous raise: the step of ['raise', b, e, 'sync']
                 if 0 <= st < nsteps:
                     steps[st].append(list(rec[1:]))
                 else:
